@@ -529,7 +529,9 @@ def exhaustive_small(ctx: Ctx):
 
 
 def shard(ctx: Ctx):
-    explore(ctx, "weights", weight_case(), check_weights, ctx.n(6000, 400000), batch=1000)
+    # (integer weights are honoured at the FlowIRConcrete level; the package validator wants floats)
+    explore(ctx, "weights", weight_case(forms=("float", "float", "float", "int")), check_weights,
+            ctx.n(6000, 400000), batch=1000)
     explore(ctx, "monitor", monitor_case(), check_monitor, ctx.n(240, 8000), batch=60)
     explore(ctx, "controller", controller_case(), check_controller, ctx.n(240, 8000), batch=60)
     exhaustive_small(ctx)
